@@ -107,7 +107,9 @@ def translator_stage(c):
   c.add_obligation('chain_threaded[BenchmarkStateFactory -> designer_factory]', main['threaded'] and side['threaded'],
                    '; '.join('%s hands %s to %s' % (l['caller'], json.dumps(l['prov']), l['callee']) for l in bad_links))
   for (name, i), a in zip(inl, ans[len(keys) + 2:]):
-    got = [(s['kind'], s['api'], s['guard'], json.dumps(s['prov'], sort_keys=True), s['effect']) for s in a['sites']]
+    # provenance sets are compared up to the translator's normal form (order / duplicates / const inside derived)
+    got = [(s['kind'], s['api'], s['guard'], json.dumps(tr.prov_json(tr.norm(prov_of_json(s['prov']))), sort_keys=True), s['effect'])
+           for s in a['sites']]
     want = []
     for s in res.flat(i.callee):
       g = tr.g_and(i.guard, tr.g_resolve(s.guard, i.prov))
@@ -117,6 +119,10 @@ def translator_stage(c):
       c.tie_break('translator inlining vs model inlineSites', {'def': name, 'callee': i.callee}, want[:6], got[:6])
   c.sample({'table': 'quasi_random.QuasiRandomDesigner', 'sites': [site_str(s) for s in summ['tables'].get('quasi_random.QuasiRandomDesigner', {'sites': []})['sites']]})
   return summ, verdict, not (main['threaded'] and side['threaded'])
+
+
+def prov_of_json(j):
+  return j if isinstance(j, str) else ('derived', tuple(prov_of_json(x) for x in j['derived']))
 
 
 def model_says_reproducible(verdict, designer, summ):
@@ -206,9 +212,9 @@ def gen_cases(c, level, focus=None):
   """level 0 = quick, 1 = thorough, 2 = enlarged search (after a broken obligation / tie)."""
   rng = c.rng
   cases = []
-  n_prob = [2, 5, 8][level]
+  n_prob = [3, 6, 10][level]
   probs = [FIXED_PROBLEM] + [gen_problem(rng) for _ in range(n_prob)]
-  seeds = [0] + [rng.randrange(1, 2 ** 31 - 1) for _ in range([1, 2, 4][level])]
+  seeds = [0] + [rng.randrange(1, 2 ** 31 - 1) for _ in range([2, 3, 5][level])]
   for d in NONGP:
     for pi, spec in enumerate(probs):
       for s in seeds:
@@ -280,6 +286,27 @@ def short(case):
   return {k: case[k] for k in case if k != 'prefix'} | {'prefix_len': len(case.get('prefix', []))}
 
 
+def attribute(case, base, singles):
+  """which part of the ambient does the run depend on?"""
+  plain = W.run_case(case)
+  if plain == base:
+    cause = []
+    for label, sp in singles.items():
+      with W.perturbed(sp):
+        if W.run_case(case) != base:
+          cause.append(label)
+    return cause
+  cause = []
+  for label, sp in (('np.random global state', {'np_seed': 1}), ('random (python) global state', {'py_seed': 1})):
+    with W.perturbed(sp):
+      r1 = W.run_case(case)
+    with W.perturbed(sp):
+      r2 = W.run_case(case)
+    if r1 == r2:
+      cause.append(label + ' (runs agree once it is pinned)')
+  return cause or ['OS entropy or the clock advancing between two plain runs in one process (pinning np.random / random does not make them agree)']
+
+
 def dynamic_stage(c, level, summ, verdict, focus=None, tag=''):
   rng = c.rng
   cases = gen_cases(c, level, focus)
@@ -320,17 +347,9 @@ def dynamic_stage(c, level, summ, verdict, focus=None, tag=''):
       c.notes.append('%s seed=%s raised %s (both runs compared as errors)' % (name, case['seed'], base['error'][:120]))
     predicted, why = model_says_reproducible(verdict, d, summ)
     if again != base:
-      cause = []
-      for label, sp in singles.items():
-        with W.perturbed(sp):
-          r = W.run_case(case)
-        if r != base:
-          cause.append(label)
-      again2 = W.run_case(case)
-      if again2 != base and not cause:
-        cause = ['nothing at all (two plain runs in the same process differ)']
-      what = ('%s(seed=%s): two runs with the same seed, problem and history differ in-process after perturbing %s' % (
-          LABEL[d] if kind == 'designer' else 'benchmark run with ' + LABEL[d], case['seed'], ' / '.join(cause) or 'the ambient'))
+      cause = attribute(case, base, singles)
+      what = ('%s(seed=%s): two runs with the same seed, problem and history differ in-process; depends on: %s' % (
+          LABEL[d] if kind == 'designer' else 'benchmark run with ' + LABEL[d], case['seed'], ' / '.join(cause) or 'the perturbed ambient (np.random, random, clock, unrelated study together)'))
       c.prop_fail('nonreproducible-in-process:%s:%s' % (kind, d), what,
                   {'case': short(case), 'perturbation': pert, 'depends_on': cause, 'first_difference': first_diff(base, again)})
       if predicted and (kind == 'designer' or not summ.get('_chain_broken')):
